@@ -491,12 +491,13 @@ def step (cmp : Val → Val → Int) (s : St) : Op → St × List Ev
     | some b, some it => let r := itrRemove b it; (ofItRes s r, r.evs ++ [.ret r.ret])
     | _, _ => (s, [.ret (-EINVAL)])
 
-/-- run a script from a given state, collecting all output events -/
-def run (cmp : Val → Val → Int) : St → List Op → St × List Ev
-  | s, [] => (s, [])
-  | s, o :: os =>
-    let (s1, e1) := step cmp s o
-    let (s2, e2) := run cmp s1 os
-    (s2, e1 ++ e2)
+/-- the state after a script -/
+def final (cmp : Val → Val → Int) (s : St) (ops : List Op) : St :=
+  ops.foldl (fun s o => (step cmp s o).1) s
+
+/-- the output of a script, line by line -/
+def trace (cmp : Val → Val → Int) : St → List Op → List (Op × List Ev)
+  | _, [] => []
+  | s, o :: os => (o, (step cmp s o).2) :: trace cmp (step cmp s o).1 os
 
 end Lm.Struct.Bst
